@@ -82,6 +82,7 @@ type Thread struct {
 	timerWake  func()
 	timerFired bool
 	quiesced   bool
+	panicWhere string
 }
 
 type Machine struct {
@@ -624,6 +625,7 @@ func (m *Machine) startPanic(th *Thread, val Value) {
 	}
 	fr.status = stPanicking
 	fr.panicVal = val
+	th.panicWhere = m.where()
 }
 
 // unwindStep advances panic unwinding by one action.
@@ -662,7 +664,7 @@ func (m *Machine) unwindStep(th *Thread) {
 	if fr.caller == nil {
 		th.state = tsDone
 		th.crashed = true
-		panic(pathEnd{"crash", "unrecovered panic in goroutine " + th.name + ": " + m.panicString(pv)})
+		panic(pathEnd{"crash", "unrecovered panic in goroutine " + th.name + ": " + m.panicString(pv) + "\n  panic raised" + th.panicWhere})
 	}
 	if fr.onReturn != nil {
 		// engine-initiated call: treat as propagating into caller too
